@@ -306,7 +306,9 @@ func (x *Exec) wfLoaded(st *State, v *Val) {
 		// guarded by the path condition: on other paths the loaded term may denote a value that was
 		// never stored (e.g. a reslice that only happens when the slice is non-empty)
 		x.sc.assume(implies(x.guard(st), and(x.sc.iLe(z, v.E[1].S), x.sc.iLe(z, v.E[2].S), x.sc.iLe(v.E[2].S, v.E[3].S), "(>= "+v.E[0].S+" 0)",
-			x.sc.iLe(v.E[1].S, x.sc.iConst(1<<40)), x.sc.iLe(v.E[3].S, x.sc.iConst(1<<40)))))
+			x.sc.iLe(v.E[1].S, x.sc.iConst(1<<40)), x.sc.iLe(v.E[3].S, x.sc.iConst(1<<40)),
+			// a nil slice has no capacity (hence no elements)
+			implies(eq(v.E[0].S, "0"), eq(v.E[3].S, z)))))
 	case KIface:
 		x.sc.assume(implies(x.guard(st), and("(>= "+v.E[0].S+" 0)", "(>= "+v.E[1].S+" 0)")))
 	case KPtr:
